@@ -288,7 +288,14 @@ class P:
 
     # expressions
     def expr(self):
-        return self.lor()
+        c = self.lor()
+        if self.peek() == "?":
+            self.eat()
+            a = self.expr()
+            self.eat(":")
+            b = self.expr()
+            return ("cond", c, a, b)
+        return c
 
     def lor(self):
         a = self.land()
@@ -682,6 +689,8 @@ def rename(stmts, scopes, used, fn):
             return (k, e[1], [rx(a) for a in e[2]])
         if k == "ctor":
             return ("ctor", [rx(a) for a in e[1]])
+        if k == "cond":
+            return ("cond", rx(e[1]), rx(e[2]), rx(e[3]))
         raise Refuse(f"{fn}: expression kind {k}")
 
     out = []
@@ -842,6 +851,8 @@ class Types:
             if e[1][0] != "var" or self.etype(e[1]) != "S":
                 self.fail("member call on something that is no String variable")
             m, a = e[2], e[3]
+            if m == "findLast" and len(a) == 1 and a[0][0] == "chr":
+                return ("PN", e[1][1])
             if m == "length" and not a:
                 return "U"
             if m == "isEmpty" and not a:
@@ -861,6 +872,12 @@ class Types:
             self.fail("String(...) constructor not understood")
         if k == "call":
             return ("CALL", e[1])
+        if k == "cond":
+            self.cond_type(e[1])
+            a, b = self.etype(e[2]), self.etype(e[3])
+            if a in ("I", "U") and b in ("I", "U"):
+                return "U" if a == "U" and b == "U" else "I"
+            self.fail(f"`?:` on {a} and {b}")
         self.fail(f"expression {k}")
 
     def cond_type(self, e):
@@ -893,6 +910,9 @@ class Types:
         elif k == "ctor":
             for a in e[1]:
                 self.reads(a, acc)
+        elif k == "cond":
+            for a in e[1:]:
+                self.reads(a, acc)
         return acc
 
     def need(self, e, asg):
@@ -919,6 +939,11 @@ class Types:
                         self.ty[n] = ("P", None)
                     elif init == ("num", 0):
                         self.ty[n] = ("PN", None)
+                        if asg is not None:
+                            asg = asg | {n}
+                    elif init[0] == "member" and init[2] == "findLast":
+                        self.need(init, asg)
+                        self.ty[n] = self.etype(init)
                         if asg is not None:
                             asg = asg | {n}
                     else:
@@ -1184,6 +1209,12 @@ class Gen:
                 x, dx = self.ex(a[0])
                 y, dy = self.ex(a[1])
                 return f"substr {s} {x} {y}", band(dx, dy)
+        if k == "cond":
+            c, dc = self.cond(e[1])
+            a, da = self.ex(e[2])
+            b, db = self.ex(e[3])
+            d = dc if da is None and db is None else band(dc, f"(if {c} then {da or 'true'} else {db or 'true'})")
+            return f"(if {c} then {a} else {b})", d
         if k == "ctor":
             a = e[1]
             if len(a) == 0:
@@ -1232,6 +1263,8 @@ class Gen:
                     return K
                 if init == ("num", 0):
                     return [self.setfield(n, "none")] + K
+                if init[0] == "member" and init[2] == "findLast":
+                    return [self.setfield(n, f"findLast {self.v(init[1][1])} {init[3][0][1]}")] + K
                 _, o, d = self.ptr(init)
                 return self.guard(d, [self.setfield(n, o)] + K)
             if ty == "String":
